@@ -31,6 +31,23 @@ CLAIMED = {
    text="At the instant the simulated API removes a Job no listed task may still exist; controller-issued Job deletes are judged against finish time + effective TTL at the simulated clock; quiescent states must not hold a deleting Job without tasks or an expired finished Job. Explored for deletion at every phase, kubelet prompt/dead, TTL from job/config/zero.",
    note=JOBW, ref="4 C13"),
 }
+QW = "Trusts the simulated API server/informer/work-queue model (DESIGN.md 2.1, 5); the job controller is abstracted by an environment transition that writes the status computed by the real jobcontroller.UpdateJobStatusFromTaskRefs; <= 3-4 Jobs on one JobConfig; deviation budgets per scenario; violations that need an applied-but-failed start write are a recorded known finding (F8)."
+CLAIMED.update({
+ "C01": dict(level="model_checking", tech="exhaustive enumeration of all tick-timing sequences (6 tick lengths, depth 5/6-7) of the real CronWorker+Schedule+heap under a fake clock, compared tick by tick with a brute-force per-second reference stream and a heap-consistency oracle",
+   text="For 13 populations of JobConfigs (second/minute granular, multi-expression, hashed, point-in-time, never-matching, 5 timezones incl. config default, notBefore/notAfter on and off matches, 8 JobConfigs colliding in one tick, caps 1/3/5, start instants on/off a match) every sequence of tick delays from {0.25s,1s,1.5s,5s,61s,400s} up to the depth bound is executed on the real CronWorker.Work; every tick's requests must equal the reference (independent field matcher, cursor, cap) and the heap dump must be ordered, index-consistent and hold each JobConfig at its reference next-due time.",
+   note="Reference matcher is independent for numeric/step/list/range fields; hashed (H) fields and next-due times beyond 10 minutes use the cron library as trusted matcher. Finite alphabet of expressions, timezones and tick lengths; no DST transition instants.", ref="4 C01"),
+ "C03": dict(level="model_checking", tech=MC + " (replay mode; CronWorker.Work is the tick transition)",
+   text="BFS over every pair (quick) / triple (thorough) of JobConfig life-cycle events (create, setexpr, disable, enable, add notBefore, drop schedule, delete, recreate, non-schedule edit) submitted through the real mutating webhook, interleaved in every order with informer deliveries (lag 0/1) and ticks of 1s/1.5s/5s; every tick's requests are judged against the schedule implied by the JobConfig version delivered to the controller, and an unchanged bystander JobConfig must keep its exact stream.",
+   note="Times between a delivered change and the tick that processes it may be skipped (re-base at the tick) - tolerated by the oracle. Second-granular expressions so that overdue firings coincide with changes inside a 12s horizon.", ref="4 C03"),
+ "C04": dict(level="exploration", tech="exhaustive enumeration of the product of persisted lower-bound terms x downtime threshold x cap x expression x restart instant on a freshly constructed real CronWorker (Init+Work+2 ticks) against the reference lower bound",
+   text="6480 (quick) / ~40000 (thorough) combinations of status.lastScheduled, spec.schedule.lastUpdated, notBefore, maxDowntimeThresholdSeconds, maxMissedSchedules, expression and restart instant; after Init the first three ticks must request exactly the first K due times after max(lastScheduled, start-downtime, lastUpdated, notBefore), nothing at or before lastScheduled, and nothing back-dated for a never-scheduled JobConfig.",
+   note="Crash/restart inside a running system (lastScheduled maintained by the jobconfig controller) is covered by C15 (monotone lastScheduled) and the C20 end-to-end world, not here.", ref="4 C04"),
+ "C05": dict(level="model_checking", tech=MC + "; real activejobstore counter in the loop, restored by its public API in snapshots",
+   text="BFS over Job creation (Allow/Forbid/Enqueue, startAfter), informer deliveries (lag <= 1, thorough 2), per-JobConfig and independent reconciler syncs, job-controller status writes, finish, delete/purge, restart (store Recover) and failing/conflicting/applied-timeout start and reject writes; every write that sets status.startTime is judged against the authoritative number of started, unfinished Jobs; the counter must be >= 0 always and equal the truth at rest.",
+   note=QW, ref="4 C05"),
+ "C06": dict(level="model_checking", tech=MC, text="Same search as C05 with the policy monitors: only Forbid Jobs are refused and only at the limit, Enqueue Jobs start in creation order among queued+due+visible Jobs, Allow Jobs and admissible Enqueue/Forbid Jobs never remain queued at rest.", note=QW, ref="4 C06"),
+ "C07": dict(level="model_checking", tech=MC + "; clock advanced to every startAfter, armed-timer oracle", text="Same search as C05 with owned and independent Jobs carrying startAfter in {past, now, +5s, +90s}: no start write before startAfter at the simulated clock; a Job blocked only by time has a deferred sync armed no later than startAfter+1s; at rest after the time passed nothing due and admissible is queued.", note=QW, ref="4 C07"),
+})
 PENDING_REASON = "check not built yet in this session (planned, see DESIGN.md section 4)"
 
 props = [json.loads(l) for l in open("/verif/properties.jsonl")]
